@@ -195,9 +195,15 @@ class Ctx:
                 return g(x)
             return fn
 
+        fail_at_call = set(spec.get('fail_at_call', ()))
+
         def fn(x):
             k = state['k']
             state['k'] += 1
+            if k in fail_at_call:
+                # a plain function that hands back an awaitable, but checks its argument first: it raises when CALLED
+                log.add('FN_FAILED', nid, x, k)
+                raise F.InjectedFault((nid, k))
             enter(x, k)
             fut = env.loop.create_future()
             d = self._svc(spec, k)
